@@ -33,6 +33,8 @@ class Posterior:
             return float(np.logaddexp(-0.5 * np.sum((z - 1.5) ** 2), -0.5 * np.sum((z + 1.5) ** 2)))
         if self.kind == "student":
             return float(-2.0 * np.sum(np.log1p(z * z / 3.0)))
+        if self.kind == "plateau":          # flat top (value exactly 0, handed back as a Python int) with Gaussian shoulders
+            return float(-0.5 * np.sum(np.maximum(np.abs(z) - 1.5, 0.0) ** 2))
         raise ValueError(self.kind)
 
     def grad_f(self, x):
@@ -48,13 +50,15 @@ class Posterior:
     def __call__(self, x):
         v = self.f(x)
         self.calls.append((np.array(x, dtype=float).copy(), v))
+        if self.kind == "plateau" and v == 0.0:
+            return 0                        # what `return 0` in a user's function gives: an int, not a float
         return v
 
     def grad(self, x):
         return self.grad_f(x)
 
 
-KINDS = ["gauss", "corr", "banana", "bimodal", "student"]
+KINDS = ["gauss", "corr", "banana", "bimodal", "student"]       # all smooth; "plateau" (C1 only) is used by name where wanted
 
 
 def quiet(fn, *a, **k):
